@@ -63,7 +63,10 @@ Print Assumptions lock_claims_hold.
 Theorem discipline_holds :
   (forall r, In r accesses -> row_ok r = true) /\
   roles_consistent = true /\ ctor_helpers_ok = true /\ policy_covered = true /\
-  (500 <= List.length accesses)%nat.
+  (500 <= List.length accesses)%nat /\
+  (* reference hand-off: every Snapshot.addRef is by the creator of the snapshot or on the
+     root read under rootLock (table snapshot_addrefs; a lifetime rule, not a data-race rule) *)
+  addrefs_ok = true.
 Proof. exact discipline_holds_all. Qed.
 Print Assumptions discipline_holds.
 
